@@ -142,7 +142,7 @@ def run(tier, replay_file=None):
     quick = tier == "quick"
     rng = random.Random(common.seed())
     # part 1: edits and evaluations
-    small = dict(consts(), L='99', Times='0..1' if quick else '0..2', CVals='{1,3}', IVals='{0,5}')
+    small = dict(consts(), L='0', Times='0..1' if quick else '0..2', CVals='{1,3}', IVals='{0,5}')
     mc = tlc.run("Memo", small, init="Init1", next="Next1", invariants=["NoStale"], view="View1", constraints=["VerBound"], timeout=3000)
     if mc.violation:
         R.violation("spec:" + mc.violation, {"trace": mc.trace[:3000]})
@@ -170,7 +170,7 @@ def run(tier, replay_file=None):
     nsched = 0
     for threads, kinds in (('("t1" :> "x" @@ "t2" :> "z")', {"t1": "x", "t2": "z"}), ('("t1" :> "z" @@ "t2" :> "z")', {"t1": "z", "t2": "z"}),
                            ('("t1" :> "x" @@ "t2" :> "z" @@ "t3" :> "z")', {"t1": "x", "t2": "z", "t3": "z"})):
-        m2 = tlc.run("Memo", dict(consts(threads=threads), L='99'), init="Init2", next="Next2", invariants=["SingleValued", "Emit2"], workers=1, timeout=3000)
+        m2 = tlc.run("Memo", dict(consts(threads=threads), L='0'), init="Init2", next="Next2", invariants=["SingleValued", "Emit2"], workers=1, timeout=3000)
         if m2.violation:
             R.violation("spec:" + m2.violation, {"trace": m2.trace[:2000]})
         R.cov["states"] += m2.distinct
@@ -196,7 +196,7 @@ def run(tier, replay_file=None):
         R.add("traces_validated_against_impl")
         if bad:
             R.violation("one (element, time) has several values within a run (sequential consumers)", bad)
-    dv2 = tlc.run("Memo", dict(consts('{"D08b_store_overwrites"}'), L='99'), init="Init2", next="Next2", invariants=["SingleValued"], view="View2", timeout=3000)
+    dv2 = tlc.run("Memo", dict(consts('{"D08b_store_overwrites"}'), L='0'), init="Init2", next="Next2", invariants=["SingleValued"], view="View2", timeout=3000)
     if dv2.violation != "SingleValued":
         raise common.Machinery("deviation D08b does not violate SingleValued in the spec")
     R.cov["schedules_forced"] = nsched
